@@ -687,3 +687,59 @@ mut("C14", "r6-pregethook-veto-dropped", "database/controller.go",
     "\tif err := c.runPreGetHooks(key); err != nil {\n\t\treturn nil, err\n\t}", "\t_ = c.runPreGetHooks(key)", "C14-R6|database.(*Controller).Get / error of database.Controller.runPreGetHooks")
 mut("C12", "r8-session-error-dropped", "api/authentication.go",
     "\terr = createSession(w, r, token)", "\t_ = createSession(w, r, token)", "C12-R8|api.checkAuth / error of api.createSession")
+
+# ---- round-3 strengthening ------------------------------------------------------------
+def clone(src_name, prop, name, expect, comment=""):
+    src = [m for m in M if m["name"] == src_name][0]
+    M.append({"name": f"{prop}-{name}", "prop": prop, "expect": expect if isinstance(expect, list) else [expect],
+              "edits": src["edits"], "canary": False, "comment": comment or ("same edit as " + src_name)})
+
+clone("C06-r1-ctrlfn-before-defer", "C01", "r9-ctrlfn-panic-not-reported", "C01-R9|modules.(*Module).startCtrlFn", "round-3 seed C01-c1 (same class)")
+clone("C01-r6-stop-aborts-on-error", "C05", "r8-stop-aborts-on-error", "C05-R8|modules.stopModules / return", "round-3 seed C05-c1")
+clone("C06-r5-default-returns", "C05", "r9-service-worker-loop", "C05-R9|modules.(*Module).runServiceWorker", "round-3 seed C05-c2 (same class)")
+clone("C03-r5-subscribe-swapped", "C14", "r7-subscribe-swapped", "C14-R7|", "round-3 seed C14-c1")
+mut("C06", "r7-report-leaks-reporting-lock", "modules/error.go",
+    "\treportingLock.Lock()\n\tdefer reportingLock.Unlock()\n\n\tlastReportedError = me", "\treportingLock.Lock()\n\n\tlastReportedError = me\n\tif !reportToStdErr {\n\t\treturn\n\t}\n\tdefer reportingLock.Unlock()", "C06-R7|modules.(*ModuleError).Report", comment="round-3 seed C06-c2")
+mut("C06", "r9-mgmt-stop-error-overwritten", "modules/mgmt.go",
+    "\t\tlog.Warning(err.Error())\n\t\tlastErr = err\n\t}", "\t\tlog.Warning(err.Error())\n\t}\n\tlastErr = err", "C06-R9|modules.ManageModules / error of modules.stopModules is returned", comment="round-3 seed C06-c1")
+mut("C06", "r10-report-blocks", "modules/error.go",
+    "\t\tcase errorReportingChannel <- me:\n\t\tdefault:\n\t\t}", "\t\tcase errorReportingChannel <- me:\n\t\tcase <-shutdownSignal:\n\t\t}", "C06-R10|modules.(*ModuleError).Report", comment="round-3 seed C15-c2")
+clone("C06-r10-report-blocks", "C15", "r5-report-blocks", "C15-R5|modules.(*ModuleError).Report", "round-3 seed C15-c2")
+mut("C02", "r11-cache-zero-ttl-no-expiry", "database/interface_cache.go",
+    "\tif ttl >= 0 {\n\t\t_ = i.cache.SetWithExpire(", "\tif ttl > 0 {\n\t\t_ = i.cache.SetWithExpire(", "C02-R11|database.(*Interface).updateCache / cache.Set without expiry", comment="round-3 seed C02-c2")
+mut("C03", "r3-putnew-precheck-wrong-key", "database/interface.go",
+    "_, db, err = i.getMeta(r.DatabaseName(), r.DatabaseKey(), true)", "_, db, err = i.getMeta(r.DatabaseName(), r.Key(), true)", "C03-R3|database.(*Interface).PutNew / database.Interface.getMeta addresses the stored record", occurrence=2, comment="round-3 seed C03-c1")
+mut("C04", "r9-list-entries-not-checked-against-allowed", "config/validate.go",
+    "\n\t\t\t\tif err := isAllowedPossibleValue(option, entry); err != nil {\n\t\t\t\t\treturn nil, invalid(option, \"entry #%d is not allowed\", pos+1)\n\t\t\t\t}\n", "\n", "C04-R9|config.validateValue / every list entry is checked against the allowed values", comment="round-3 seed C04-c2")
+mut("C04", "r9-scalars-not-checked-against-allowed", "config/validate.go",
+    "\tif option.OptType != OptTypeStringArray {\n\t\tif err := isAllowedPossibleValue(option, value); err != nil {", "\tif option.OptType == OptTypeInt {\n\t\tif err := isAllowedPossibleValue(option, value); err != nil {", "C04-R9|config.validateValue / stringVal accepted only after the allowed-values check")
+mut("C07", "r7-deadline-not-rearmed", "modules/tasks.go",
+    "\tif t.maxDelay != 0 {\n\t\tt.executeAt = time.Now().Add(t.maxDelay)", "\tif t.maxDelay != 0 && !t.overtime {\n\t\tt.executeAt = time.Now().Add(t.maxDelay)", "C07-R7|modules.(*Task).prepForQueueing", comment="round-3 seed C07-c1")
+mut("C08", "r9-parsekey-drops-suffix", "database/record/key.go",
+    "\tsplitted := strings.SplitN(key, \":\", 2)\n\tif len(splitted) < 2 {\n\t\treturn splitted[0], \"\"\n\t}\n\treturn splitted[0], strings.Join(splitted[1:], \":\")", "\tsplitted := strings.Split(key, \":\")\n\tif len(splitted) < 2 {\n\t\treturn splitted[0], \"\"\n\t}\n\treturn splitted[0], splitted[1]", "C08-R9|database/record.ParseKey", comment="round-3 seed C08-c1")
+mut("C09", "r8-dump-prepends-in-place", "formats/dsd/dsd.go",
+    "\treturn append(varint.Pack8(format), data...), nil", "\tid := varint.Pack8(format)\n\tdata = append(data, id...)\n\tcopy(data[len(id):], data)\n\tcopy(data, id)\n\treturn data, nil", "C09-R8|formats/dsd.DumpIndent", comment="round-3 seed C09-c2")
+mut("C09", "r9-wildcard-before-strip", "formats/dsd/http.go",
+    "\t\tmimeType = strings.TrimSpace(mimeType)\n\t\tmimeType, _, _ = strings.Cut(mimeType, \";\")", "\t\tmimeType = strings.TrimSpace(mimeType)\n\t\tif mimeType == \"*\" {\n\t\t\tfoundWildcard = true\n\t\t\tcontinue\n\t\t}\n\t\tmimeType, _, _ = strings.Cut(mimeType, \";\")", "C09-R9|formats/dsd.FormatFromAccept / wildcard comparison", comment="round-3 seed C09-c1")
+mut("C11", "r7-inlist-fieldsfunc", "database/query/condition-stringslice.go",
+    "parsedValue := strings.Split(v, \",\")", "parsedValue := strings.FieldsFunc(v, func(r rune) bool { return r == ',' })", "C11-R7|database/query.newStringSliceCondition", comment="round-3 seed C11-c2")
+mut("C11", "r8-float-printed-short", "database/query/condition-float.go",
+    "return fmt.Sprintf(\"%s %s %g\", escapeString(c.key), getOpName(c.operator), c.value)", "return fmt.Sprintf(\"%s %s %.6g\", escapeString(c.key), getOpName(c.operator), c.value)", "C11-R8|database/query.(*floatCondition).string", comment="round-3 seed C11-c1")
+mut("C12", "r9-refresh-deferred-before-expiry-check", "api/authentication.go",
+    "\t// Check if session is still valid.\n\tif sess.Expired() {", "\tdefer sess.Refresh(sessionCookieTTL)\n\n\t// Check if session is still valid.\n\tif sess.Expired() {", "C12-R9|api.checkSessionCookie / session refreshed", comment="round-3 seed C12-c1")
+mut("C13", "r9-new-before-del", "api/database.go",
+    "\t\t\t\tcase isDeleted:\n\t\t\t\t\tapi.send(opID, dbMsgTypeDel, r.Key(), nil)\n\t\t\t\tcase isNew:\n\t\t\t\t\tapi.send(opID, dbMsgTypeNew, r.Key(), data)", "\t\t\t\tcase isNew:\n\t\t\t\t\tapi.send(opID, dbMsgTypeNew, r.Key(), data)\n\t\t\t\tcase isDeleted:\n\t\t\t\t\tapi.send(opID, dbMsgTypeDel, r.Key(), nil)", "C13-R9|api.(*DatabaseAPI).processSub / reply new", comment="round-3 seed C13-c1")
+mut("C14", "r8-pushfunc-captures-controller", "runtime/registry.go",
+    "\treturn func(records ...record.Record) {\n\t\tr.l.RLock()\n\t\tdefer r.l.RUnlock()\n\n\t\tif r.dbController == nil {\n\t\t\treturn\n\t\t}\n\n\t\tfor _, rec := range records {\n\t\t\tr.dbController.PushUpdate(rec)", "\tctrl := r.dbController\n\treturn func(records ...record.Record) {\n\t\tr.l.RLock()\n\t\tdefer r.l.RUnlock()\n\n\t\tfor _, rec := range records {\n\t\t\tctrl.PushUpdate(rec)", "C14-R8|runtime.(*Registry).Register", comment="round-3 seed C14-c2")
+mut("C16", "r9-writetoslice-exact-fit", "container/container.go",
+    "\t\tif len(slice) < len(c.compartments[i]) {", "\t\tif len(slice) <= len(c.compartments[i]) {", "C16-R9|container.(*Container).WriteToSlice", comment="round-3 seed C16-c2")
+mut("C18", "r3-walker-reads-outside-scope", "database/storage/fstree/fstree.go",
+    "\t\t// still in scope?\n\t\tif !fst.isInScope(path) {\n\t\t\treturn nil\n\t\t}\n", "", "C18-R3|database/storage/fstree.(*FSTree).queryExecutor$1 / os.ReadFile", comment="round-3 seed C18-c1")
+mut("C18", "r3-ensurereldir-bypasses-checks", "utils/structure.go",
+    "\treturn ds.EnsureAbsPath(filepath.Join(append([]string{ds.Path}, dirNames...)...))", "\t_ = filepath.Join\n\treturn ds.ensure(dirNames)", "C18-R3|utils.(*DirStructure).EnsureRelDir / call DirStructure.ensure", comment="round-3 seed C18-c2")
+mut("C19", "r9-fallback-keeps-old-selection", "updater/resource.go",
+    "\t// 5) Default to newest.\n\tres.SelectedVersion = res.Versions[0]", "\t// 5) Default to newest.\n\tif res.SelectedVersion == nil {\n\t\tres.SelectedVersion = res.Versions[0]\n\t}", "C19-R9|updater.(*Resource).selectVersion", comment="round-3 seed C19-c2")
+mut("C20", "r3-duplicates-not-reset-per-batch", "log/output.go",
+    "\t\tcurrentLine = nil\n\t\tduplicates = 0\n", "\t\tcurrentLine = nil\n", "C20-R3|log.writer / repetition count reset", comment="round-3 seed C20-c1")
+mut("C20", "r4-waitgroup-add-inside-goroutine", "log/output.go",
+    "\tshutdownWaitGroup.Add(1)\n\tgo writerManager()\n}\n\nfunc writerManager() {\n\tdefer shutdownWaitGroup.Done()", "\tgo writerManager()\n}\n\nfunc writerManager() {\n\tshutdownWaitGroup.Add(1)\n\tdefer shutdownWaitGroup.Done()", "C20-R4|log.startWriter / wait group armed", comment="round-3 seed C20-c2")
